@@ -21,6 +21,11 @@ CHECKS = {
         technique="translation validation, TEAL vs TEAL: SymAVM on the programs emitted under two option settings over one symbolic context, SMT obligation per path pair (verdict, return, effects, user-numbered slots, what each routine leaves on the stack); models replayed concretely",
         text="One recipe compiled under a base setting and under each other (version, scratch_slots, frame_pointers) setting; z3 shows for ALL inputs within the loop/recursion bounds that both emitted programs give the same verdict, return value, ordered effects and final contents of user-numbered scratch slots, and - for pairs differing only in the scratch-slot optimisation - that every routine leaves the same net number of values (and the same top value) when control leaves it. Programs: exhaustive store/load placement family for the optimiser (2 variables, adjacent and non-adjacent loads, main/subroutine/loop/split across a branch, user-numbered, dynamic, MaybeValue temporaries), routine families, control skeletons.",
         note="Trusted: TEAL op semantics (verif/avm), z3. Bounds: loop K, recursion D, byte lengths; program families enumerated to a stated size. The stack clause is checked as net height + top value per routine exit (spilled slots of outer frames legitimately differ between settings)."),
+    "C04": dict(
+        category="other", design_ref="DESIGN.md 3/C04",
+        technique="independent TEAL front-end (langspec table) on every emitted text + structural CFG conditions on all syntactic paths + solver-pruned symbolic path exploration (SymAVM/z3) for termination failures + CrossHair (z3 symbolic execution of the real leaf constructors) for integer immediates",
+        text="Claimed in part. (1) Every text PyTeal emits for the legality probes (each public operator/field/construct compiled at EVERY version 2..10 in BOTH modes) and for all program families must be accepted by an independent front-end at its #pragma version and mode (known opcode and field at that version/mode, immediates in range, backward branches only from v4, labels defined once, no placeholder, pragma first); this is a table verdict, not SMT. (2) No syntactic path falls through into a routine or runs off the end (CFG analysis) and no feasible path does (SymAVM with z3 feasibility). (3) CrossHair searches the real constructors for a user-supplied int that yields an immediate outside its encoding; refutations are replayed on the real code, non-confirmations are reported as inconclusive (PyTeal formats its error messages with the offending int, which makes CrossHair realise the value, so it cannot confirm).",
+        note="Trusted: verif/teal/langspec.py (validated on the repository's golden TEAL files). Not covered: fields that the AVM refuses per mode only at evaluation time; opcode-level legality is a lookup, not a solver verdict."),
     "C05": dict(
         category="model_checking", design_ref="DESIGN.md 3/C05",
         technique="SMT constraint systems over the CFG of the emitted TEAL (z3 LIA for stack heights and subroutine arities on ALL syntactic paths, loops unbounded; z3 Booleans for stack-cell and slot types) + bounded symbolic execution (SymAVM) for feasible discipline failures, replayed concretely",
